@@ -334,6 +334,8 @@ class ValueGen:
       items = [self.value(depth - 1) for _ in range(n)]
       if items and r.random() < self.reserved_rate:
         items[0] = [4, S('__tuple__')]
+      elif items and items[0] == [4, S('__tuple__')]:
+        items[0] = [4, S('__tuple_')]         # the reserved spelling only at the reserved rate
       return [5, items]
     if k <= 3:      # tuple
       if n == 0 and not self.empty_tuples: n = 1
@@ -1056,6 +1058,13 @@ def run(ctx):
   hyp_checked = 0
   oracle_evals = 0
   for t in values:
+    try:
+      pv_to_py(t)
+    except Exception:
+      if any(reserved(t)):
+        # a reserved spelling nested under a tuple is re-read as JSON when the value is built: not a value at all
+        ctx.hist('reserved', 'cannot-be-constructed'); continue
+      raise
     fs_ = set(); features(t, fs_)
     for f in fs_: ctx.hist('value_features', f)
     ctx.hist('value_depth', depth_of(t))
@@ -1091,6 +1100,11 @@ def run(ctx):
   nmut = ctx.scale(500, 8000)
   for _ in range(nmut):
     t = vg.value(r.choice([1, 2, 3]))
+    try:
+      pv_to_py(t)
+    except Exception:
+      if any(reserved(t)): continue
+      raise
     if r.random() < 0.5:
       j = mutate_json(r, json_to_jv(p.to_json(pv_to_py(t))), keys); kind = 4
     else:
